@@ -90,7 +90,9 @@ func (w *World) Client(extra ...regclient.Opt) *regclient.RegClient {
 		ro = append(ro, reg.WithCache(5*time.Minute, 100))
 	}
 	ro = append(ro, w.ExtraRegOpts...)
-	opts := []regclient.Opt{regclient.WithConfigHost(w.Hosts...), regclient.WithRegOpts(ro...)}
+	// (the caller's options first: a logger has to be in place before the host configuration is loaded, as in the CLIs)
+	opts := append([]regclient.Opt{}, extra...)
+	opts = append(opts, regclient.WithConfigHost(w.Hosts...), regclient.WithRegOpts(ro...))
 	if lvl := os.Getenv("VERIF_RCLOG"); lvl != "" {
 		// debugging aid for `verif.py one`: the client's own log on stderr
 		l := slog.LevelWarn
@@ -99,7 +101,6 @@ func (w *World) Client(extra ...regclient.Opt) *regclient.RegClient {
 		}
 		opts = append(opts, regclient.WithSlog(slog.New(slog.NewTextHandler(os.Stderr, &slog.HandlerOptions{Level: l}))))
 	}
-	opts = append(opts, extra...)
 	return regclient.New(opts...)
 }
 
